@@ -84,9 +84,10 @@ def check_training(wd, lines, opts, acc, want_keyspace=False):
                 break
     # cross-check the reference guesser semantics against the real generator on the low levels
     emitted = {}
+    shared = O.new_optimizer()      # one optimizer for all levels of a run, as PcfgGrammar uses it
     for L in range(0, 7):
         try:
-            outl, capped = O.emitted_at(g, L, cap=20000)
+            outl, capped = O.emitted_at(g, L, cap=20000, optimizer=shared)
         except Exception as e:
             fails.append(('generator', 'MarkovCracker cannot be started on the trained model at level %d: %r' % (L, e)))
             break
